@@ -6,6 +6,7 @@ never imports or executes it.
 from __future__ import annotations
 
 import ast
+import copy
 import json
 import os
 import sys
@@ -328,6 +329,19 @@ class Module:
 
             _alpha.apply_private_map(self.tree, repo.private_map)
         self.tree = canon.canonicalise(self.tree)
+        if getattr(repo, "summaries", None) is not None and relpath in getattr(repo, "_ref_trees", {}):
+            from . import equiv
+
+            try:
+                if not hasattr(repo, "_ref_canon"):
+                    repo._ref_canon = {}
+                if relpath not in repo._ref_canon:
+                    repo._ref_canon[relpath] = canon.canonicalise(clone(repo._ref_trees[relpath]))
+                ref = repo._ref_canon[relpath]
+                rep_ = equiv.substitute_equivalents(self.tree, ref, repo.summaries, canon=lambda n: canon.canonicalise(n))
+                repo.equivalence.update({f"{relpath}:{k}": v for k, v in rep_.items()})
+            except Exception as e:  # noqa: BLE001 -- best effort: without it the function is analysed as written
+                repo.equivalence[f"{relpath}:<error>"] = repr(e)[:200]
         self.alpha = {}
         if os.environ.get("PGV_NO_ALPHA") != "1":
             from . import alpha
@@ -414,9 +428,20 @@ class Repo:
                     except SyntaxError:
                         pass
             try:
-                self.private_map = alpha.private_name_map(cur, alpha.load_reference_trees())
+                self._ref_trees = alpha.load_reference_trees()
+                self.private_map = alpha.private_name_map(cur, self._ref_trees)
             except Exception:  # noqa: BLE001 -- normalisation is best effort, never a verdict
                 self.private_map = {}
+                self._ref_trees = {}
+            self.summaries = None
+            if os.environ.get("PGV_NO_EQUIV") != "1":
+                try:
+                    from . import equiv
+
+                    self.summaries = equiv.Summaries(list(cur.values()))
+                except Exception:  # noqa: BLE001
+                    self.summaries = None
+            self.equivalence = {}
         self.modules = {}
         self.files = []
         for rel in PKG_FILES:
